@@ -52,7 +52,7 @@ func init() {
 			"ValidateRequest (every registered body decoder incl. YAML with non-string keys / non-finite floats, zip, csv, multipart with YAML parts; NaN/Inf parameter texts; deepObject array indexes), " +
 			"error text / ConvertErrors / ValidationErrorEncoder+DefaultErrorEncoder, ValidateResponse, Validator.Middleware, ValidationHandler (file-loaded); " +
 			"typed Go values: bodies through a user-registered decoder that hands the validator map[any]any (non-string keys), int / int32 / int64 / float64 / json.Number, nested; " +
-			"histories: the same exchange 2–4 times in one fresh child process (field repeat) over documents with patterns in every position document validation does not compile (texts Go's regexp accepts and rejects) and over exchanges of the general stream; non-trivial = the model reports ≥1 feature/branch",
+			"histories: the same exchange 2–4 times in one fresh child process (field repeat; with reuse on one loaded document and one router, else on fresh ones) over documents with patterns in every position document validation does not compile (texts Go's regexp accepts and rejects) and over exchanges of the general stream; non-trivial = the model reports ≥1 feature/branch",
 		Exhaustive: true,
 		Gen:        genC10,
 		Run:        runC10,
@@ -742,8 +742,14 @@ func c10Repeat(c hx.Case) int {
 func c10RunTraffic(c hx.Case) any {
 	n := c10Repeat(c)
 	var out any
+	// "reuse": every round goes through ONE loaded document and ONE router (state kept on the objects: defaults,
+	// compiled routes, whatever a validation writes back into the document) instead of fresh ones
+	var sh *c10Shared
+	if jbool(c, "reuse") {
+		sh = &c10Shared{}
+	}
 	for i := 1; i <= n; i++ {
-		out = c10RunTrafficOnce(c)
+		out = c10RunTrafficOnce(c, sh)
 		if m, ok := out.(map[string]any); ok {
 			if bad, _ := c10Bad(m); bad {
 				if n > 1 {
@@ -756,7 +762,12 @@ func c10RunTraffic(c hx.Case) any {
 	return out
 }
 
-func c10RunTrafficOnce(c hx.Case) any {
+type c10Shared struct {
+	doc    *openapi3.T
+	router routers.Router
+}
+
+func c10RunTrafficOnce(c hx.Case, sh *c10Shared) any {
 	// the zip decoder is exported but not registered by the library: a user registers it like this
 	c10ZipOnce.Do(func() {
 		openapi3filter.RegisterBodyDecoder("application/zip", openapi3filter.ZipFileBodyDecoder)
@@ -770,8 +781,11 @@ func c10RunTrafficOnce(c hx.Case) any {
 	om, _ := c["opts"].(map[string]any)
 	b, _ := json.Marshal(docv)
 	var doc *openapi3.T
+	if sh != nil && sh.doc != nil {
+		doc = sh.doc
+	}
 	// loading and validating is the gate, not the property (C20 owns panics there)
-	if !st.guard("gate", func() {
+	if doc == nil && !st.guard("gate", func() {
 		d, err := openapi3.NewLoader().LoadFromData(b)
 		if err != nil {
 			out["kind"] = "invalid-doc"
@@ -795,7 +809,13 @@ func c10RunTrafficOnce(c hx.Case) any {
 		return out
 	}
 	var router routers.Router
-	if !st.guard("newrouter", func() {
+	if sh != nil {
+		sh.doc = doc
+		router = sh.router
+	}
+	if router != nil {
+		// the router of the earlier rounds
+	} else if !st.guard("newrouter", func() {
 		var err error
 		if jstr(c, "router") == "gorilla" {
 			router, err = gorillamux.NewRouter(doc)
@@ -808,6 +828,9 @@ func c10RunTrafficOnce(c hx.Case) any {
 		}
 	}) || router == nil {
 		return out
+	}
+	if sh != nil {
+		sh.router = router
 	}
 	req, err := c10Request(rq)
 	if err != nil {
@@ -1169,10 +1192,13 @@ func genC10(ctx *hx.Ctx, emit func(hx.Case)) {
 			// any exchange of the general stream, twice
 			c := c10RandTraffic(r)
 			c["repeat"] = 2
+			c["reuse"] = r.Bool()
 			emit(c)
 			continue
 		}
-		emit(c10HistoryTraffic(r))
+		c := c10HistoryTraffic(r)
+		c["reuse"] = r.Bool()
+		emit(c)
 	}
 }
 
